@@ -10,16 +10,16 @@ import random
 import sys
 from pathlib import Path
 
-ROOT_ENGINES = ["SEA", "SEAX", "GA", "ADAPT", "MWEA", "DE", "DEd", "SHADE", "LHS", "SOBOL", "CUSTOM"]
+ROOT_ENGINES = ["SEA", "SEAX", "GA", "ADAPT", "MWEA", "DE", "DEd", "SHADE", "LHS", "SOBOL", "CUSTOM", "MEMETIC", "DOC"]
 CHILD_ENGINES = ["SEA", "SEAX", "GA", "ADAPT", "MWEA", "DE", "DEd", "SHADE", "CMA", "CMAw", "CMAs", "LOCAL",
-                 "LHS", "SOBOL", "CMA", "LOCAL", "CMA", "CUSTOM"]
-BOX = ["sym", "asym", "decimal", "tiny", "huge", "unit"]
+                 "LHS", "SOBOL", "CMA", "LOCAL", "CMA", "CUSTOM", "MEMETIC", "DOC"]
+BOX = ["sym", "asym", "decimal", "tiny", "huge", "unit", "thirds"]
 FNS = ["sphere", "multi", "funnels", "plateau", "zero", "linear", "offset"]
 
 
 def _level(r: random.Random, engine: str, depth: int, nlevels: int, lowmut: bool) -> dict:
     lv = {"engine": engine}
-    if engine in ("SEA", "SEAX", "GA", "ADAPT", "CUSTOM"):
+    if engine in ("SEA", "SEAX", "GA", "ADAPT", "CUSTOM", "MEMETIC"):
         lv.update(pop=r.choice([4, 5, 6, 8]), gens=r.choice([1, 2, 2, 3]), k_elites=r.choice([1, 1, 2]))
         if lowmut:
             lv["p_mutation"] = r.choice([0.3, 0.6])
@@ -41,7 +41,7 @@ def _level(r: random.Random, engine: str, depth: int, nlevels: int, lowmut: bool
     elif engine == "LOCAL":
         if r.random() < 0.3:
             lv["maxiter"] = r.choice([1, 2, 5])
-    elif engine == "LHS":
+    elif engine in ("LHS", "DOC"):
         lv.update(pop=r.choice([4, 6]))
     elif engine == "SOBOL":
         lv.update(pop=r.choice([4, 8]))
@@ -214,6 +214,12 @@ def sweep_specs(tier: str = "quick") -> list[dict]:
     for n in range(0, 3):
         out.append(dict(base, name=f"sweep_nonroot{n}", gsc={"kind": "NoActiveNonroot", "n": n}, max_consults=300, maystall=True))
     out.append(dict(base, name="sweep_dontrun", gsc={"kind": "DontRun"}, reports=True))
+    # every deme has stopped long before the condition holds: dozens of metaepochs pass in which nothing runs
+    quiet = [{"engine": "SEA", "pop": 6, "gens": 2, "lsc": {"kind": "MetaepochLimit", "n": 2}},
+             {"engine": "DE", "pop": 5, "gens": 1, "lsc": {"kind": "MetaepochLimit", "n": 1}}]
+    out.append(dict(base, name="sweep_idle70", levels=quiet, gsc={"kind": "MetaepochLimit", "n": 70}, max_consults=2500))
+    out.append(dict(base, name="sweep_idle120", levels=quiet, gsc={"kind": "MetaepochLimit", "n": 120}, max_consults=2500, hibernation=True))
+    out.append(dict(base, name="sweep_idle_nonroot", levels=quiet, gsc={"kind": "NoActiveNonroot", "n": 58}, max_consults=2500))
     return out
 
 
@@ -255,7 +261,8 @@ def engine_specs() -> list[dict]:
         {"engine": "MWEA", "pop": 8, "gens": 3, "k_elites": 2, "election_group_size": 5},
         {"engine": "DE", "pop": 6, "gens": 4, "crossover": 0.5}, {"engine": "DEd", "pop": 6, "gens": 3},
         {"engine": "DE", "pop": 6, "gens": 3, "scaling": 1.5}, {"engine": "SHADE", "pop": 6, "gens": 4, "mem": 3},
-        {"engine": "CUSTOM", "pop": 6, "gens": 3, "p_mutation": 0.5},
+        {"engine": "CUSTOM", "pop": 6, "gens": 3, "p_mutation": 0.5}, {"engine": "MEMETIC", "pop": 6, "gens": 3, "k_elites": 1},
+        {"engine": "MEMETIC", "pop": 5, "gens": 2, "k_elites": 2, "p_mutation": 0.5},
     ]
     n = 0
     for v in variants:
@@ -268,7 +275,7 @@ def engine_specs() -> list[dict]:
             out.append(dict(base, name=f"eng{n}", seed=500 + n, maximize=maximize, idlecheck=not lows,
                             levels=[{"engine": "SEA", "pop": 8, "gens": 1}, dict(v)], fn=["funnels", "multi", "sphere"][n % 3]))
     for child in ({"engine": "CMA", "gens": 3}, {"engine": "CMAw", "gens": 3}, {"engine": "CMAs", "gens": 2}, {"engine": "LOCAL"},
-                  {"engine": "LHS", "pop": 5}, {"engine": "SOBOL", "pop": 4}):
+                  {"engine": "LHS", "pop": 5}, {"engine": "SOBOL", "pop": 4}, {"engine": "DOC", "pop": 5}):
         for maximize in (False, True):
             n += 1
             out.append(dict(base, name=f"eng{n}", seed=500 + n, maximize=maximize,
@@ -407,6 +414,14 @@ def fidelity_specs() -> list[dict]:
                             "gsc": {"kind": "MetaepochLimit", "n": 5} if n % 2 else {"kind": "WeightedEvalLimit", "n": 90, "w": "equal"},
                             "sprout": {"kind": "simple", "far": 0.03, "limit": 2} if n % 3 else {"kind": "nbc", "gen": 1.0, "trunc": 1.0, "fil": 0.5, "limit": 2},
                             "reports": n % 5 == 0, "dump_at": (2 if n % 6 == 1 else None)})
+    # optimum on a face / in a corner of a box whose faces are no short decimals, reached exactly by the local search
+    for cache in (False, True):
+        for maximize in (False, True):
+            for child in ({"engine": "LOCAL"}, {"engine": "CMA", "gens": 3, "lsc": {"kind": "MetaepochLimit", "n": 4}}):
+                n += 1
+                out.append({"name": f"fid{n}", "seed": 1300 + n, "dim": 2 + n % 3, "box": "thirds", "fn": "linear", "fns": ["linear", "linear"],
+                            "maximize": maximize, "use_cache": cache, "gsc": {"kind": "MetaepochLimit", "n": 5}, "dump_at": None,
+                            "levels": [{"engine": "SEA", "pop": 8, "gens": 2}, dict(child)], "sprout": {"kind": "simple", "far": 0.02, "limit": 2}})
     for sp in out:
         if sp["dump_at"] is None:
             sp.pop("dump_at")
@@ -457,15 +472,50 @@ def big_specs(tier: str = "quick") -> list[dict]:
             sp = json.loads(json.dumps(row))
             sp.update(name=f"big{k * len(rows) + i + 1}", seed=1500 + 17 * k + i, max_consults=9000, cpu_cap_s=400)
             sp.setdefault("maximize", bool(k % 2))
-            if k % 3 == 2:
-                sp["dump_at"] = 5 + i
+            if k % 3 == 2 or (k == 0 and i in (3, 5)):
+                sp["dump_at"] = [5, 6, 7, 20, 9, 12][i]      # snapshots of trees with dozens of demes on a level
             out.append(sp)
+    return out
+
+
+def user_specs() -> list[dict]:
+    """User-supplied pieces of the ordinary kind: a global condition that reads the tree's best individual at every
+    consult (also mid-metaepoch), a candidate generator that lists parents depth-first, and a sprout mechanism object
+    that has already served another tree."""
+    out = []
+    n = 0
+    base = {"dim": 2, "box": "sym", "fn": "multi"}
+    for levels in ([{"engine": "DE", "pop": 8, "gens": 2}],
+                   [{"engine": "SEA", "pop": 8, "gens": 2}, {"engine": "CMA", "gens": 2, "lsc": {"kind": "MetaepochLimit", "n": 3}}],
+                   [{"engine": "SHADE", "pop": 8, "gens": 1, "mem": 2, "lsc": {"kind": "MetaepochLimit", "n": 3}},
+                    {"engine": "DE", "pop": 6, "gens": 2, "lsc": {"kind": "MetaepochLimit", "n": 4}}]):
+        for maximize in (False, True):
+            n += 1
+            out.append(dict(base, name=f"user{n}", seed=1600 + n, maximize=maximize, levels=[dict(l) for l in levels], hibernation=n % 3 == 0,
+                            gsc={"kind": "Target", "target": 0.005, "n": 9}, sprout={"kind": "simple", "far": 0.03, "limit": 2}, reports=n % 2 == 0,
+                            fn=["multi", "sphere", "zero"][n % 3]))
+    four = [{"engine": "SEA", "pop": 10, "gens": 1}, {"engine": "SEA", "pop": 6, "gens": 1, "lsc": {"kind": "MetaepochLimit", "n": 6}},
+            {"engine": "DE", "pop": 5, "gens": 1, "lsc": {"kind": "MetaepochLimit", "n": 4}}, {"engine": "CMA", "gens": 1, "lsc": {"kind": "MetaepochLimit", "n": 2}}]
+    for limit in (1, 2, 3):
+        for hib in (False, True):
+            n += 1
+            out.append(dict(base, name=f"user{n}", seed=1600 + n, maximize=False, levels=[dict(l) for l in (four if n % 2 else four[:3])],
+                            hibernation=hib, gsc={"kind": "MetaepochLimit", "n": 14}, fn="funnels", max_consults=3000,
+                            sprout={"kind": "composed", "generator": "dfs", "deme_filters": [["far", 0.02, 2]], "tree_filters": [["levellimit", limit]]}))
+    for sprout in ({"kind": "composed", "generator": "best", "deme_filters": [], "tree_filters": [["skipsame"], ["levellimit", 3]]},
+                   {"kind": "composed", "generator": "nbc", "gen": 1.0, "trunc": 1.0, "deme_filters": [["demelimit", 2]], "tree_filters": [["levellimit", 3], ["skipsame"]]},
+                   {"kind": "simple", "far": 0.03, "limit": 2}, {"kind": "nbc", "gen": 1.0, "trunc": 1.0, "fil": 0.5, "limit": 2}):
+        for maximize in (False, True):
+            n += 1
+            out.append(dict(base, name=f"user{n}", seed=1600 + n, maximize=maximize, reuse_mechanism=True,
+                            levels=[{"engine": "SEA", "pop": 8, "gens": 1, "k_elites": 1}, {"engine": "DE", "pop": 5, "gens": 1, "lsc": {"kind": "MetaepochLimit", "n": 2}}],
+                            gsc={"kind": "MetaepochLimit", "n": 6}, sprout=json.loads(json.dumps(sprout)), fn="funnels"))
     return out
 
 
 def gen_specs(seed: int, n_random: int, tier: str = "quick") -> list[dict]:
     r = random.Random(seed)
-    specs = repo_test_specs() + sweep_specs(tier) + lifecycle_specs() + engine_specs() + init_specs() + manual_specs() + penalty_specs() + tiny_specs() + partial_specs() + fidelity_specs() + adaptive_specs() + big_specs(tier)
+    specs = repo_test_specs() + sweep_specs(tier) + lifecycle_specs() + engine_specs() + init_specs() + manual_specs() + penalty_specs() + tiny_specs() + partial_specs() + fidelity_specs() + adaptive_specs() + big_specs(tier) + user_specs()
     for i in range(n_random):
         specs.append(random_spec(r, i))
     return specs
